@@ -212,8 +212,9 @@ BagMap(f, b) ==
 RECURSIVE Shape(_)
 Shape(v) ==
   CASE IsLeafLike(v) -> N("leaf", 0, <<>>, <<>>)
-    [] v.k = "set" -> LET shapes == {Shape(c) : c \in v.x}
-                      IN N("set", 0, [s \in shapes |-> Cardinality({c \in v.x : Shape(c) = s})], <<>>)
+    [] v.k = "set" -> LET sh == [c \in v.x |-> Shape(c)]
+                          shapes == {sh[c] : c \in v.x}
+                      IN N("set", 0, [s \in shapes |-> Cardinality({c \in v.x : sh[c] = s})], <<>>)
     [] v.k = "error" -> v
     [] OTHER -> N(v.k, v.t, [i \in 1..Len(v.x) |-> Shape(v.x[i])], [i \in 1..Len(v.y) |-> Shape(v.y[i])])
 
@@ -280,6 +281,19 @@ Grow(P, L, W, kinds, dcs) ==
                 \cup UNION {{DCV(t, <<a>>, <<b>>) : a \in P, b \in P} : t \in dcs \ {DCSlots}}
                 \cup (IF DCSlots \in dcs THEN {DCV(DCSlots, <<a>>, <<>>) : a \in P} ELSE {})
            ELSE {})
+\* the containers of Grow(L) that have no first child (childless ones) or are not produced by
+\* Expand (two-entry leaf dicts): initial states of a depth-2 enumeration
+Rootless(L, kinds) ==
+  LET HL == {v \in L : Hashable(v)}
+  IN (IF "list" \in kinds THEN {ListV(<<>>)} ELSE {})
+     \cup (IF "tuple" \in kinds THEN {TupleV(<<>>)} ELSE {})
+     \cup (IF "set" \in kinds THEN {SetV({})} ELSE {})
+     \cup (IF "fset" \in kinds THEN {FSetV({})} ELSE {})
+     \cup (IF "dict" \in kinds THEN {DictV(<<>>, <<>>)} ELSE {})
+     \cup (IF "dict2" \in kinds
+           THEN {DictV(<<p[1], p[2]>>, <<c, d>>) : p \in {q \in HL \X HL : ~PyEq(q[1], q[2])}, c \in L, d \in L}
+           ELSE {})
+
 (***************************************************************************)
 (* Expand(v, P, ...): the containers over P whose FIRST child (for a set:  *)
 (* one element) is v.  Grow(P) \ P = UNION {Expand(v, P) : v \in P} up to  *)
